@@ -1,6 +1,6 @@
 use crate::blob_store::BlobStore;
 use crate::index::btree::BTree;
-use crate::pager::Pager;
+use crate::pager::{PageId, Pager};
 use crate::{Error, Result};
 use std::collections::{HashMap, VecDeque};
 
@@ -36,6 +36,11 @@ impl PersistentVectorStorage {
             btree,
             cache: VectorCache::new(DEFAULT_VECTOR_CACHE_CAP),
         }
+    }
+
+    /// Current root page of the underlying B-tree (it moves when the root splits).
+    pub fn root(&self) -> PageId {
+        self.btree.root()
     }
 }
 
@@ -138,6 +143,11 @@ pub struct PersistentGraphStorage {
 impl PersistentGraphStorage {
     pub fn new(btree: BTree) -> Self {
         Self { btree }
+    }
+
+    /// Current root page of the underlying B-tree (it moves when the root splits).
+    pub fn root(&self) -> PageId {
+        self.btree.root()
     }
 }
 
